@@ -227,8 +227,11 @@ def r3(ctx: Ctx, m):
                  node=wn.ast, witness=g.path_to(r2_, wn))
       else:
         ctx.ok(rule, fi, 'enqueue_done re-checked between Full and wait', wn.ast)
-  for name, putn in (('enqueue_from_iterator', 'put'),):
-    fi = m.method(name)
+  # the sync entry and its async sibling owe the same stop test
+  for name, putn in (('enqueue_from_iterator', 'put'), ('async_enqueue_from_iterator', 'async_put')):
+    fi = next((f_ for f_ in m.methods() if f_.name == name), None)
+    if fi is None:
+      raise AnalysisError(f'{rule}: producer entry {name} not found in the queue family')
     g = cfgm.cfg_of(fi.node)
     puts = [n for n in g.nodes if calls_method(n, putn)]
     if not puts:
@@ -242,7 +245,7 @@ def r3(ctx: Ctx, m):
                  witness=g.path_to(reach, p))
       else:
         ctx.ok(rule, fi, f'{name}: loop tests enqueue_done', p.ast)
-  ctx.floor(rule, 3)
+  ctx.floor(rule, 4)
 
 
 def r4(ctx: Ctx, m):
@@ -781,6 +784,9 @@ VARIANTS = [
       '      raise e\n    while not self.enqueue_done:\n      try:\n        self.put(next(iterator))',
       '      raise e\n    while True:\n      try:\n        self.put(next(iterator))',
       'R-C05-3'),
+    B('revert-async-loop-tests-stop', _F,
+      '    while not self.enqueue_done:\n      try:\n        value = await asyncio.wait_for(anext(iterator), self.timeout)',
+      '    while True:\n      try:\n        value = await asyncio.wait_for(anext(iterator), self.timeout)', 'R-C05-3'),
     B('revert-iter-failure-recorded', _F,
       '    self._start_enqueue()\n    try:\n      iterator = iter(iterator)\n    except Exception as e:  # pylint: disable=broad-exception-caught\n      # The iterable can fail before yielding anything, e.g., when opening its\n      # source: the consumers have to see this as any other enqueue failure.\n      e.add_note(f\'Exception during enqueueing "{self.name}".\')\n      logging.exception(\'chainable: %s\', f\'"{self.name}" enqueue failed.\')\n      self._exception = e\n      self._stop_enqueue()\n      raise e\n',
       '    iterator = iter(iterator)\n    self._start_enqueue()\n', 'R-C05-10'),
